@@ -746,8 +746,8 @@ Proof.
   rewrite Hc, IH. reflexivity.
 Qed.
 
-(* SHIPPED CODE (strict time comparisons in the mask): every solution whose service starts and depot returns
-   all have STRICT slack is reachable through the mask *)
+(* HISTORY (the mask before /repo 9b8ead8, strict time comparisons; recorded as fixed in known_findings.json): every
+   solution whose service starts and depot returns all have STRICT slack was reachable through that mask *)
 Theorem mtvrp_mask_complete_strict i rs :
   mtvrp_wf i -> mtvrp_metricb i = true ->
   rs <> [] -> Forall (fun r => r <> []) rs -> NoDup (concat rs) ->
@@ -766,7 +766,7 @@ Proof.
   rewrite (tw_gen_ext _ _ _ _ _ (tcmp false) Z.ltb) by reflexivity. rewrite A5. lia.
 Qed.
 
-(* REPAIRED MASK ([<=] in the two time comparisons): every solution of the problem is reachable *)
+(* THE MASK AS IT IS ([<=] in the two time comparisons since /repo 9b8ead8): every solution of the problem is reachable *)
 Theorem mtvrp_mask_complete_repaired i rs :
   mtvrp_wf i -> mtvrp_metricb i = true ->
   rs <> [] -> Forall (fun r => r <> []) rs -> NoDup (concat rs) ->
@@ -795,15 +795,15 @@ Proof.
   destruct (opn i); lia.
 Qed.
 
-(* ---- the boundary instance of DESIGN section 8: one customer at travel time 80 (= 0.625 * 128) whose window
+(* ---- HISTORY, recorded as fixed in known_findings.json (/repo 9b8ead8).  The boundary instance of DESIGN section 8: one customer at travel time 80 (= 0.625 * 128) whose window
    closes at 80; depot window [0, 512] *)
 Definition tw_eq_inst : mtvrp_inst :=
   {| dl := [0; 32]; db := [0; 0]; cap := 64; lim := 100000; opn := false;
      tlo := [0; 0]; thi := [512; 80]; svc := [0; 0];
      dist := [[0; 80]; [80; 0]]; tt := [[0; 80]; [80; 0]] |}.
 
-(* feasible by the problem definition, accepted by the shipped checker, admitted by the repaired mask -- and the
-   shipped mask does not offer the customer at reset *)
+(* feasible by the problem definition, accepted by the checker, admitted by the mask as it is now (R = true) -- and
+   the former strict mask (R = false) does not offer the customer at reset *)
 Theorem mtvrp_tw_equality_hidden_refuted :
   exists (i : mtvrp_inst) (rs : list (list nat)),
     mtvrp_wf i /\ mtvrp_metricb i = true /\ mtvrp_solvableb true i = true /\
@@ -821,7 +821,7 @@ Proof.
   repeat (split; [vm_compute; reflexivity|]). vm_compute; reflexivity.
 Qed.
 
-(* ... and no mask-confined episode of the shipped code ever serves that customer: the row never finishes *)
+(* ... and no mask-confined episode of the former strict mask ever serves that customer: the row never finishes *)
 Theorem mtvrp_tw_equality_never_served :
   forall acts, adm (E:=MTVRP exact false) tw_eq_inst acts = true ->
                done (MTVRP exact false) tw_eq_inst (run (E:=MTVRP exact false) tw_eq_inst acts) = false.
@@ -1082,7 +1082,7 @@ Proof.
         apply in_app_iff in Hin as [Hin|[<-|[]]]; [|exact Han]. apply in_rev in Hin. specialize (Hrc _ Hin). unfold n_of in Hrc. lia. }
       destruct (Hnode _ Hln) as (_ & _ & _ & _ & _ & _ & _ & _ & _ & Hd). destruct (Hd 0%nat Hnn). lia. }
     replace (len + dfun i node a <=? lim i) with true by lia.
-    replace (Z.max (t + dfun i node a) (lo i a) <=? hi i a) with true by lia. cbn [andb].
+    replace (Z.max (t + tfun i node a) (lo i a) <=? hi i a) with true by lia. cbn [andb].
     apply (IH (a :: c) a).
     + intros b Hb. apply Hra. right. exact Hb.
     + intros x [<-|Hx]; [exact Ha1 | apply Hrc; exact Hx].
@@ -1181,3 +1181,29 @@ Example mtvrp_checker_respects_speed :
   mtvrp_feasibleb fast_inst 0 [1; 0]%nat = true /\ mtvrp_checker exact fast_inst [1; 0]%nat = true /\
   mtvrp_wfb slow_inst = true /\ mtvrp_feasibleb slow_inst 0 [1; 0]%nat = false /\ mtvrp_checker exact slow_inst [1; 0]%nat = false.
 Proof. vm_compute. repeat split. Qed.
+
+(* ---- the solvability hypothesis of the step bound is needed for the mask as it is (R = true): a customer that cannot
+   be reached before its window closes (travel time 80, window end 79) is never offered and the row never finishes *)
+Definition tw_late_inst : mtvrp_inst :=
+  {| dl := [0; 32]; db := [0; 0]; cap := 64; lim := 100000; opn := false;
+     tlo := [0; 0]; thi := [512; 79]; svc := [0; 0];
+     dist := [[0; 80]; [80; 0]]; tt := [[0; 80]; [80; 0]] |}.
+Theorem mtvrp_unsolvable_never_finishes :
+  mtvrp_wfb tw_late_inst = true /\ mtvrp_solvableb true tw_late_inst = false /\
+  forall acts, adm (E:=MTVRP exact true) tw_late_inst acts = true ->
+               done (MTVRP exact true) tw_late_inst (run (E:=MTVRP exact true) tw_late_inst acts) = false.
+Proof.
+  repeat (split; [vm_compute; reflexivity|]).
+  intros acts. unfold adm, run.
+  assert (G : forall s, (s = reset (MTVRP exact true) tw_late_inst \/ s = step (MTVRP exact true) tw_late_inst (reset (MTVRP exact true) tw_late_inst) 0%nat) ->
+              adm_from (E:=MTVRP exact true) tw_late_inst s acts = true ->
+              done (MTVRP exact true) tw_late_inst (run_from (E:=MTVRP exact true) tw_late_inst s acts) = false).
+  { induction acts as [|a r IH]; intros s Hs Hadm.
+    - destruct Hs as [-> | ->]; vm_compute; reflexivity.
+    - cbn [adm_from run_from] in *. apply andb_prop in Hadm as [Ho Hadm].
+      destruct a as [|[|a]].
+      + apply IH; [|exact Hadm]. right. destruct Hs as [-> | ->]; vm_compute; reflexivity.
+      + exfalso. destruct Hs as [-> | ->]; vm_compute in Ho; discriminate.
+      + exfalso. destruct Hs as [-> | ->]; unfold offered in Ho; cbn in Ho; destruct a; discriminate. }
+  apply G. left. reflexivity.
+Qed.
